@@ -88,9 +88,22 @@ def check_fixed_point(ctx, spec, p, channel, C, otherdir):
                         rest = steps[i + 1 :]
                         break
                 node = None
+                sig = None
                 if t is not None:
-                    _, node = c01.descend(t, C0[".".join(keypath)], rest)
-                sig = f"parse_object-changes-own-result/{node.kind if node is not None else 'structure'}/{diff_class((steps_str(steps), reason))}"
+                    lu, node = c01.descend(t, C0[".".join(keypath)], rest)
+                    if lu is not None and lu[0].kind == "union":
+                        # was the value re-read by a member written *earlier* in the Union than the one that produced it?
+                        try:
+                            lu2, _ = c01.descend(t, o.value[".".join(keypath)], rest)
+                            mem = list(lu[0].children)
+                            own0 = next((m for m in mem if c01.strict(lu[1], m, exact=True) is None), None)
+                            own1 = next((m for m in mem if c01.strict(lu2[1], m, exact=True) is None), None) if lu2 else None
+                            if own0 is not None and own1 is not None and mem.index(own1) < mem.index(own0):
+                                sig = f"parse_object-changes-own-result/union-earlier-member-rereads/{own0.kind}-to-{own1.kind}"
+                        except Exception:
+                            pass
+                if sig is None:
+                    sig = f"parse_object-changes-own-result/{node.kind if node is not None else 'structure'}/{diff_class((steps_str(steps), reason))}"
                 ctx.violation("fixedpoint", sig, dict(channel=channel, where=where, at=steps_str(steps), why=reason, hint=t.skel if t else None, config=short(C0, 800), reparsed=short(o.value, 800)))
                 return
     # 3. dump . parse . dump
